@@ -2,7 +2,7 @@
    non-trivial inputs (and the main outcomes computed on a 10-byte file). *)
 From Coq Require Import List NArith ZArith Bool Lia.
 Import ListNotations.
-From TV Require Import C27.Model C27.Spec C27.Run C27.Proofs1 C27.Proofs2 C27.Proofs3 C27.Proofs4 C27.Proofs5.
+From TV Require Import C27.Model C27.Spec C27.Run C27.Proofs1 C27.Proofs2 C27.Proofs3 C27.Proofs4 C27.Proofs5 C27.Proofs6 C27.Proofs7.
 
 Local Open Scope N_scope.
 
@@ -48,3 +48,25 @@ Example ex_etag_premises :
   ~ In 34 [97; 98] /\ q_etag q = 34 :: [97; 98] ++ [34] /\ q_inm q = Some (q_etag q)
   /\ static_get q = Resp not_modified_response.
 Proof. cbn. repeat split; try reflexivity. intuition discriminate. Qed.
+
+(* If-None-Match: "a", W/"ab"   against the entity tag "ab": a list, matched weakly *)
+Example ex_inm_list :
+  let items := [([34; 97; 34], [44; 32]); ([87; 47; 34; 97; 98; 34], [])] in
+  let q := {| q_head := false; q_content := [1; 2; 3]; q_etag := [34; 97; 98; 34];
+              q_inm := Some (inm_header [] items); q_ims := None; q_mtime := 5%Z; q_range := None |} in
+  list_sep [] /\ Forall (fun it => entity_tag (fst it) /\ list_sep (snd it)) items
+  /\ not_modified q = true /\ existsb (fun it => weak_equal (fst it) (q_etag q)) items = true.
+Proof.
+  cbv zeta. split; [constructor|]. split; [|split; reflexivity].
+  constructor; [split|constructor; [split|constructor]]; cbn [fst snd].
+  - apply (ETStrong [97]). cbn. intuition discriminate.
+  - unfold list_sep. constructor; [right; right; reflexivity|]. constructor; [left; reflexivity|]. constructor.
+  - apply (ETWeak [97; 98]). cbn. intuition discriminate.
+  - constructor.
+Qed.
+
+(* the chunk loop on a 5-byte file read 2 bytes at a time, range 1-4 *)
+Example ex_chunks :
+  static_get_chunks 2 (with_range q_witness (Some [98; 121; 116; 101; 115; 61; 49; 45; 52]))
+  = LoopDone [[66; 67]; [68; 69]].
+Proof. vm_compute. reflexivity. Qed.
